@@ -22,6 +22,26 @@ def lids_in(n):
 from facts import children as _children
 
 
+def value_leaves(e):
+    """the expressions `e` may evaluate to: through blocks, match arms and if branches; diverging leaves dropped"""
+    if not isinstance(e, dict):
+        return []
+    k = e["k"]
+    if k == "BlockExpr":
+        return value_leaves(e["block"])
+    if k == "Block":
+        return value_leaves(e.get("expr"))
+    if k == "DropTemps":
+        return value_leaves(e.get("e"))
+    if k == "Match":
+        return [l for a in e["arms"] for l in value_leaves(a["body"])]
+    if k == "If":
+        return value_leaves(e["then"]) + value_leaves(e.get("else"))
+    if k in ("Ret", "Break", "Continue"):
+        return []
+    return [e]
+
+
 class Deriv:
     """syntactic may-derive relation inside one function body: local binding -> set of root names
     (parameters / pattern bindings it is computed from), following `let`, `if let` and match-arm
@@ -171,72 +191,177 @@ def run(cx, rep):
     rep.trusted = ["rustc typed HIR / impl facts"]
     # ---------------------------------------------------------------- C09.1
     rep.rule("C09.1", "binding tables are keyed by the right syntax field")
-    iv = [f for f in F.fns.values() if f.name == "visit_import_decl" and (f.impl_self or "").startswith("swc_tools::bind_exports::ImportsVisitor")]
+    VIS = "swc_tools::bind_exports::ImportsVisitor"
+    iv = [f for f in F.fns.values() if f.name == "visit_import_decl" and (f.impl_self or "").startswith(VIS)]
+
+    def import_inserts(t):
+        return [n for n in walk(t["body"]) if n["k"] == "MethodCall" and n["method"] == "insert" and any(x["k"] == "Field" and x["name"] == "imports" for x in walk(n["recv"]))]
+
+    def private_visitor_callee(crate, n, but):
+        """the private method of the visitor that the call node n resolves to (None otherwise)"""
+        if n["k"] not in ("Call", "MethodCall"):
+            return None
+        tg = F._callee_gid(crate, (n.get("resolved") or n.get("callee")) or "")
+        h = F.fns.get(tg)
+        if h is None or tg not in F.hir or tg == but or h.vis == "Public" or not (h.impl_self or "").startswith(VIS):
+            return None
+        return h
+
+    def binder_summary(b):
+        """(insert node, expression in b the key derives from | None) for every store into `imports` that b performs -
+        itself, or through a private helper that performs it on b's behalf with the key taken from one of its
+        parameters - and the ImportReference variants built on the way"""
+        tree = F.hir[b.id]
+        keyed = [(c, c["args"][0]) for c in import_inserts(tree)]
+        built = {x["def"].rsplit("::", 1)[-1] for x in walk(tree["body"]) if x["k"] == "Struct" and re.search(r"ImportReference::\w+$", x.get("def") or "")}
+        for n in walk(tree["body"]):
+            h = private_visitor_callee(b.crate, n, b.id)
+            if h is None:
+                continue
+            ht = F.hir[h.id]
+            HD = Deriv(ht)
+            args = ([n["recv"]] + n["args"]) if n["k"] == "MethodCall" else n["args"]
+            ins = import_inserts(ht)
+            for c in ins:
+                idx = HD.param_roots(ht, c["args"][0]) - {0}
+                if len(idx) == 1 and min(idx) < len(args):
+                    keyed.append((c, args[min(idx)]))
+                else:
+                    keyed.append((c, None))
+            if ins:
+                built |= {x["def"].rsplit("::", 1)[-1] for x in walk(ht["body"]) if x["k"] == "Struct" and re.search(r"ImportReference::\w+$", x.get("def") or "")}
+        return keyed, built
+
+    # import binders, by role: the private methods of the visitor that visit_import_decl calls and that store into
+    # `imports` (one per kind of import today; benign b93 merges them into one insert_import(local, specifier, kind)
+    # whose `match kind` builds the reference).  What they are called and how many there are is not part of the
+    # property; every kind of ImportReference must be bound by one of them.
+    binders = {}     # gid -> dict(fn, key_idx, orig_idx, carriers)
     if len(iv) != 1:
         rep.anchor_missing("C09.1", "ImportsVisitor::visit_import_decl")
     else:
+        built_all = set()
+        for n in walk(F.hir[iv[0].id]["body"]):
+            b = private_visitor_callee(iv[0].crate, n, iv[0].id)
+            if b is None or b.id in binders:
+                continue
+            keyed, built = binder_summary(b)
+            if not keyed:
+                continue
+            info = binders[b.id] = {"fn": b, "key_idx": None, "orig_idx": None, "carriers": set()}
+            built_all |= built
+            tree = F.hir[b.id]
+            D = Deriv(tree)
+            rep.ob("C09.1", "%s/one-insert" % b.name, len(keyed) == 1, "%s must insert exactly one import binding (found %d)" % (b.name, len(keyed)), b.loc())
+            for c, kexpr in keyed:
+                # the key derives from ONE parameter, the specifier's identifier (`local: &Ident`); the call sites say which
+                pr = (D.param_roots(tree, kexpr) - {0}) if kexpr is not None else set()
+                ok = len(pr) == 1 and "Ident" in ((b.inputs or [""] * 9)[min(pr)] or "")
+                rep.ob("C09.1", "%s/key" % b.name, ok, "imports key must derive from the identifier parameter of %s only (parameters %s)" % (b.name, sorted(pr)), "%s:%s" % (b.file, c["line"]))
+                if ok and len(keyed) == 1:
+                    info["key_idx"] = min(pr)
+            st = [x for x in walk(tree["body"]) if x["k"] == "Struct" and (x.get("def") or "").endswith("ImportReference::Named")]
+            if st:
+                ok = False
+                if len(st) == 1 and info["key_idx"] is not None:
+                    e = struct_field(st[0], "original_name")
+                    pr = D.param_roots(tree, e) - {0}
+                    ok = e is not None and len(pr) == 1 and info["key_idx"] not in pr
+                    if ok:
+                        info["orig_idx"] = min(pr)
+                        # the original name may arrive inside a mode value (`kind: ImportKind::Named { original_name }`):
+                        # then the variant field it is bound from carries it, and the call sites are judged at the
+                        # constructions of that variant
+                        reach = {x.get("lid") for x in D.closure_nodes(e) if x["k"] == "Path" and x.get("res") == "local"}
+                        for p_ in walk(tree["body"]):
+                            if p_["k"] == "P.Struct" and (p_.get("def") or "").rsplit("::", 1)[0] in F.adts:
+                                for fl in p_["fields"]:
+                                    if any(b_["k"] == "P.Binding" and b_.get("lid") in reach for b_ in walk(fl["pat"])):
+                                        info["carriers"].add((p_["def"], fl["name"]))
+                rep.ob("C09.1", "%s/original-name" % b.name, ok, "Named.original_name must derive from a parameter of %s other than the one that keys the table" % b.name, b.loc())
+        if not binders:
+            rep.anchor_missing("C09.1", "import binders (private methods called from visit_import_decl that store into `imports`)")
+        ir = F.adts.get("swc_tools::ImportReference")
+        if ir is None:
+            rep.anchor_missing("C09.1", "swc_tools::ImportReference")
+        else:
+            for v in ir["variants"]:
+                rep.ob("C09.1", "import-kind/%s/bound" % v["name"], v["name"] in built_all,
+                       "no function that visit_import_decl calls stores an ImportReference::%s into the import table: that kind of import is never bound" % v["name"], iv[0].loc())
+        # the named-import sites of visit_import_decl: (expression the key comes from, expression the original name
+        # comes from).  Either the two arguments of a call to the binder, or - when the binder takes a mode value - each
+        # construction of the carrying variant, paired with the key it travels with (`let (local, kind) = match ..`)
         tree = F.hir[iv[0].id]
-        D = Deriv(tree)
-        calls = [n for n in walk(tree["body"]) if n["k"] == "MethodCall" and n["method"] == "insert_import_named"]
-        rep.floor("C09.1", "insert_import_named call sites", len(calls), 2)
+        D = Deriv(tree, tuples=True)
+        sites = []
+        for c in walk(tree["body"]):
+            b = private_visitor_callee(iv[0].crate, c, iv[0].id)
+            info = binders.get(b.id) if b is not None else None
+            if info is None or info["orig_idx"] is None:
+                continue
+            a = ([c["recv"]] + c["args"]) if c["k"] == "MethodCall" else c["args"]
+            if max(info["key_idx"], info["orig_idx"]) >= len(a):
+                continue
+            kx, ox = a[info["key_idx"]], a[info["orig_idx"]]
+            if not info["carriers"]:
+                sites.append((kx, ox, c["line"]))
+                continue
+            seen_s = set()
+            for s in D.closure_nodes(ox):
+                if s["k"] != "Struct" or id(s) in seen_s:
+                    continue
+                for vdef, fld in info["carriers"]:
+                    if s.get("def") == vdef and struct_field(s, fld) is not None:
+                        seen_s.add(id(s))
+                        kx2 = kx
+                        kl, ol = lids_in(kx), lids_in(ox)
+                        if len(kl) == 1 and len(ol) == 1:
+                            for tup, i in D.tup_src.get(ol[0][1], []):
+                                if any(x is s for x in walk(tup["es"][i])):
+                                    kx2 = next((tup["es"][j] for tup2, j in D.tup_src.get(kl[0][1], []) if tup2 is tup), kx)
+                        sites.append((kx2, struct_field(s, fld), s["line"]))
+        rep.floor("C09.1", "insert_import_named call sites", len(sites), 2)
         kinds = set()
-        for c in calls:
-            a_local = D.roots(c["args"][0])
-            a_orig = D.roots(c["args"][2])
-            fp = D.field_paths(c["args"][2])
-            renamed = "imported" in a_orig and "local" not in (a_orig - {"imported"}) and len(a_orig - {"imported", "local"}) >= 0 and not any(p.startswith("local.") for p in fp)
+        for kx, ox, line in sites:
+            a_local = D.roots(kx)
+            a_orig = D.roots(ox)
+            fp = D.field_paths(ox)
             plain = any(p.startswith("local.") for p in fp)
             kind = "renamed" if (not plain) else "plain"
             kinds.add(kind)
             rep.ob("C09.1", "import-named/%s/local-key" % kind, "local" in a_local and "imported" not in a_local,
-                   "the import table must be keyed by the local name of the specifier (found roots %s)" % sorted(a_local), "%s:%s" % (iv[0].file, c["line"]),
+                   "the import table must be keyed by the local name of the specifier (found roots %s)" % sorted(a_local), "%s:%s" % (iv[0].file, line),
                    sample={"site": kind, "key_from": sorted(a_local), "original_name_from": sorted(fp) or sorted(a_orig)})
             if kind == "renamed":
                 rep.ob("C09.1", "import-named/renamed/original-name", "imported" in a_orig,
-                       "`import {A as B}`: the name looked up in the other module must be the imported name A", "%s:%s" % (iv[0].file, c["line"]))
+                       "`import {A as B}`: the name looked up in the other module must be the imported name A", "%s:%s" % (iv[0].file, line))
         rep.ob("C09.1", "import-named/both-forms", kinds == {"renamed", "plain"}, "expected one call for `import {A as B}` and one for `import {A}` (found %s)" % sorted(kinds), iv[0].loc())
-    for fname, keyparam, payload in (("insert_import_named", "local", ("original_name", "orig")), ("insert_import_default", "local", None), ("insert_import_star", "local", None)):
-        fs = [f for f in F.fns.values() if f.name == fname and (f.impl_self or "").startswith("swc_tools::bind_exports::ImportsVisitor")]
-        if len(fs) != 1:
-            rep.anchor_missing("C09.1", fname)
-            continue
-        tree = F.hir[fs[0].id]
-        D = Deriv(tree)
+    # export registrars, by role (benign b93: insert_type / insert_value / insert_unknown became thin wrappers of one
+    # `insert(table: ExportTable, name, export)` that parse_and_bind calls directly): the methods that take the export
+    # name (their one String parameter) and the export record (Rc<SymbolExport>) and return nothing; one further
+    # parameter, if any, is the mode that selects the table
+    registrars = {}      # gid -> (index of the key, index of the record, index of the mode | None, type of the mode)
+    for f in F.fns.values():
+        ins_ = f.inputs or []
+        ki = [i for i, t_ in enumerate(ins_) if t_ == "std::string::String"]
+        pi = [i for i, t_ in enumerate(ins_) if re.search(r"^std::rc::Rc<(\w+::)*SymbolExport>$", t_)]
+        if f.impl_self and f.kind != "Closure" and (f.output or "") == "()" and len(ki) == 1 and len(pi) == 1 and f.impl_self in ins_[0]:
+            rest = [i for i in range(1, len(ins_)) if i not in (ki[0], pi[0])]
+            registrars[f.id] = (ki[0], pi[0], rest[0] if len(rest) == 1 else None, ins_[rest[0]] if len(rest) == 1 else None)
+    if not registrars:
+        rep.anchor_missing("C09.1", "export registrars (methods taking the export name and an Rc<SymbolExport>)")
 
-        def import_inserts(t):
-            return [n for n in walk(t["body"]) if n["k"] == "MethodCall" and n["method"] == "insert" and any(x["k"] == "Field" and x["name"] == "imports" for x in walk(n["recv"]))]
-        # (insert node, expression in THIS function the key derives from): the insert itself, or a private helper
-        # that performs it on behalf of this function with the key taken from one of its parameters
-        keyed = [(c, c["args"][0], D) for c in import_inserts(tree)]
-        for n in walk(tree["body"]):
-            if n["k"] not in ("Call", "MethodCall"):
-                continue
-            tg = F._callee_gid(fs[0].crate, (n.get("resolved") or n.get("callee")) or "")
-            h = F.fns.get(tg)
-            if h is None or tg not in F.hir or tg == fs[0].id or h.vis == "Public" or not (h.impl_self or "").startswith("swc_tools::bind_exports::ImportsVisitor"):
-                continue
-            ht = F.hir[tg]
-            HD = Deriv(ht)
-            hparams = [p.get("name") if p["k"] == "P.Binding" else None for p in ht["params"]]
-            args = ([n["recv"]] + n["args"]) if n["k"] == "MethodCall" else n["args"]
-            for c in import_inserts(ht):
-                r = HD.roots(c["args"][0]) - {"self"}
-                idx = [hparams.index(x) for x in r if x in hparams]
-                if len(idx) == 1 and len(r) == 1 and idx[0] < len(args):
-                    keyed.append((c, args[idx[0]], D))
-                else:
-                    keyed.append((c, None, D))
-        rep.ob("C09.1", "%s/one-insert" % fname, len(keyed) == 1, "%s must insert exactly one import binding (found %d)" % (fname, len(keyed)), fs[0].loc())
-        for c, kexpr, DD in keyed:
-            r = DD.roots(kexpr) if kexpr is not None else {"?"}
-            rep.ob("C09.1", "%s/key" % fname, keyparam in r and not (r - {keyparam, "self"}), "imports key must derive from `%s` only (roots %s)" % (keyparam, sorted(r)), "%s:%s" % (fs[0].file, c["line"]))
-            if payload:
-                st = [x for x in walk(tree["body"]) if x["k"] == "Struct" and (x.get("def") or "").endswith("ImportReference::Named")]
-                ok = False
-                if len(st) == 1:
-                    e = struct_field(st[0], payload[0])
-                    ok = e is not None and payload[1] in D.roots(e) and "local" not in D.roots(e)
-                rep.ob("C09.1", "%s/original-name" % fname, ok, "Named.original_name must derive from `%s`" % payload[1], fs[0].loc())
+    def registration(crate, c):
+        """(key expression, record expression, mode expression | None, method name, mode type) when the call node
+        registers an export"""
+        if c["k"] not in ("Call", "MethodCall"):
+            return None
+        tg = F._callee_gid(crate, (c.get("callee") if c["k"] == "Call" else (c.get("resolved") or c.get("callee"))) or "")
+        r = registrars.get(tg)
+        a = ([c["recv"]] if c["k"] == "MethodCall" else []) + list(c.get("args") or [])
+        if r is None or max(r[0], r[1]) >= len(a):
+            return None
+        return a[r[0]], a[r[1]], (a[r[2]] if r[2] is not None and r[2] < len(a) else None), tg.rsplit("::", 1)[-1], r[3]
     # `export { A as B }` / `export { A as B } from "./m"`: located by the constructions themselves, in any function of
     # the binder's file; provenance is by syntax field of swc's ExportNamedSpecifier { orig, exported }
     befile = [f for f in F.fns.values() if (f.file or "").endswith("swc_tools/bind_exports.rs") and f.id in F.hir and f.kind != "Closure"]
@@ -270,10 +395,11 @@ def run(cx, rep):
         ts_ = D.tags(struct_field(st, "something"))
         rep.ob("C09.1", "reexport-from/something-is-orig", "orig" in ts_ and "exported" not in ts_,
                "`export {A as B} from`: the name looked up in the other module must be A (derives from specifier fields %s)" % sorted(ts_), "%s:%s" % (f.file, st["line"]))
-        # the enclosing insert_unknown key derives from the exported name
+        # the key of the enclosing registration derives from the exported name
         for c in walk(tree["body"]):
-            if c["k"] == "MethodCall" and c["method"] == "insert_unknown" and any(x is st for x in walk(c["args"][1])):
-                tk = D.tags(c["args"][0])
+            rg = registration(f.crate, c)
+            if rg is not None and any(x is st for x in walk(rg[1])):
+                tk = D.tags(rg[0])
                 rep.ob("C09.1", "reexport-from/key-is-exported", "exported" in tk, "`export {A as B} from`: the export must be registered under B (derives from specifier fields %s)" % sorted(tk), "%s:%s" % (f.file, c["line"]))
     pb = [f for f in F.fns.values() if f.name == "parse_and_bind" and f.crate != WASM]
     if len(pb) != 1:
@@ -302,13 +428,21 @@ def run(cx, rep):
             # provenance by FIELD of UnresolvedExport { name, renamed }: read as `u.renamed` or bound by destructuring
             D.tag_fields(tree, "UnresolvedExport", ("name", "renamed"))
             for c in walk(tree["body"]):
-                if c["k"] == "MethodCall" and c["method"] in ("insert_type", "insert_value", "insert_unknown"):
-                    tg = D.tags(c["args"][0])
+                rg = registration(g.crate, c)
+                if rg is not None:
+                    tg = D.tags(rg[0])
                     if not tg and not any(x["k"] == "P.Struct" and (x.get("def") or "").endswith("UnresolvedExport") for x in walk(tree["body"])) \
                             and not any(x["k"] == "Field" and (x.get("adt") or "").endswith("UnresolvedExport") for x in walk(tree["body"])):
                         continue      # registrations that do not come from an unresolved export (other binder code)
-                    n_ins += 1
-                    rep.ob("C09.1", "bind/%s-key" % c["method"], "renamed" in tg and "name" not in tg,
+                    if rg[2] is not None and lids_in(rg[2]):
+                        # the table is selected by a mode value computed elsewhere (`insert(table, renamed, ..)` with
+                        # `table` handed back by the classifier): one kind of registration per variant of the mode
+                        # type that the binder's functions build
+                        n_ins += max(1, len({x["def"] for _, t2 in trees for x in walk(t2["body"])
+                                             if x["k"] == "Path" and x.get("res") != "local" and (x.get("def") or "").startswith(rg[4] + "::")}))
+                    else:
+                        n_ins += 1
+                    rep.ob("C09.1", "bind/%s-key" % rg[3], "renamed" in tg and "name" not in tg,
                            "%s registers an export under a key derived from UnresolvedExport.%s; it must be the exported (renamed) name" % (g.name, sorted(tg)), "%s:%s" % (g.file, c["line"]))
                 if c["k"] == "MethodCall" and c["method"] == "get" and (c.get("recv_ty") or "").replace("&mut ", "").lstrip("&") in table_tys:
                     n_get += 1
@@ -339,13 +473,15 @@ def run(cx, rep):
         # ------------------------------------------------------------ C09.3
         rep.rule("C09.3", "re-exporting an imported name registers an export for every kind of import")
         rep.ob("C09.3", "site", len(ms) == 1, "expected one match over ImportReference in the export binder (found %d)" % len(ms), pb[0].loc())
-        INSERTS = ("insert_type", "insert_value", "insert_unknown")
+        # (registrations by role, see `registrars` above)
+        def is_reg(x, crate=pb[0].crate):
+            return registration(crate, x) is not None
         for g, m in ms:
             # the match may register the export in each arm, or compute the export record that is registered once
             # afterwards: then the match (or a call of the function that consists of it) sits inside the arguments
             # of a registration
             def inside_insert(tree_, pred):
-                return any(c["k"] == "MethodCall" and c["method"] in INSERTS and any(pred(x) for a_ in c["args"] for x in walk(a_)) for c in walk(tree_["body"]))
+                return any(is_reg(c) and any(pred(x) for a_ in c["args"] for x in walk(a_)) for c in walk(tree_["body"]))
             # (also: `let export = match ..; table.insert_unknown(key, Rc::new(export))`)
             bound = set()
             for st in walk(F.hir[g.id]["body"]):
@@ -358,11 +494,11 @@ def run(cx, rep):
                 # the helper classifies (`-> Option<Target>`), its caller registers what it gets back
                 for g2, t2 in trees:
                     calls_g = [x for x in walk(t2["body"]) if x["k"] in ("Call", "MethodCall") and F._callee_gid(g.crate, (x.get("callee") if x["k"] == "Call" else (x.get("resolved") or x.get("callee"))) or "") == g.id]
-                    if calls_g and any(x["k"] == "MethodCall" and x["method"] in INSERTS for x in walk(t2["body"])):
+                    if calls_g and any(is_reg(x) for x in walk(t2["body"])):
                         flows = True
             for a in m["arms"]:
                 v = (a["pat"].get("def") or "_").rsplit("::", 1)[-1]
-                reg = any(x["k"] == "MethodCall" and x["method"] in INSERTS for x in walk(a["body"]))
+                reg = any(is_reg(x) for x in walk(a["body"]))
                 if not reg and flows and "SymbolExport" in (a["body"].get("ty") or "") and any(x["k"] == "Struct" and "SymbolExport" in (x.get("def") or "") for x in walk(a["body"])):
                     reg = True
                 rep.ob("C09.3", "reexport-import/%s" % v, reg,
@@ -1327,26 +1463,59 @@ def set_once_rule(cx, rep, rid):
     def args_of(n):
         return ([n["recv"]] if n["k"] == "MethodCall" else []) + list(n.get("args") or [])
 
-    # ---- keyed wrappers, level 1: the setter call sits under `if <param> == "<lit>"`
+    def reserved_word(s):
+        """the string a comparison operand spells: a literal, or a named constant whose initialiser is one
+        (`name == DEFAULT_EXPORT_NAME`, benign b93; the constant's initialiser is a body owner of its own)"""
+        while s.get("k") in ("AddrOf", "DropTemps"):
+            s = s["e"]
+        if s["k"] == "Lit":
+            return s.get("v") if s.get("lit") == "str" else None
+        if s["k"] == "Path" and s.get("res") != "local" and s.get("def"):
+            ct = F.hir.get(F._callee_gid(crate, s["def"])) or F.hir.get(s["def"])
+            if ct is not None and not ct.get("params"):
+                b = ct["body"]
+                while b.get("k") == "BlockExpr" and not b["block"].get("stmts") and b["block"].get("expr"):
+                    b = b["block"]["expr"]
+                if b.get("k") == "Lit" and b.get("lit") == "str":
+                    return b.get("v")
+        return None
+
+    # ---- keyed wrappers, level 1: the setter call sits under `if <param> == "<lit>"` (or a constant that names the literal)
     keyed = {}       # gid -> (param index, reserved literal)
+    unread = []      # setter calls under a test of a parameter that is not understood
     for g, t in trees.items():
         pl = param_lids(t)
+        if g in setters:
+            continue
         for n in walk(t["body"]):
-            if n["k"] != "If":
+            if n["k"] not in ("If", "Match"):
                 continue
-            if not any(x["k"] in ("Call", "MethodCall") and callee_gid(x) in setters for x in walk(n["then"])):
+            guarded = [n["then"]] if n["k"] == "If" else [a["body"] for a in n["arms"]]
+            if not any(x["k"] in ("Call", "MethodCall") and callee_gid(x) in setters for b_ in guarded for x in walk(b_)):
                 continue
-            for c in walk(n["cond"]):
+            test = n["cond"] if n["k"] == "If" else n["scrut"]
+            hit = False
+            for c in (walk(test) if n["k"] == "If" else ()):
                 if c["k"] == "Binary" and c.get("op") == "Eq":
                     sides = [c["l"], c["r"]]
-                    lit = [s for s in sides if s["k"] == "Lit" and s.get("lit") == "str"]
+                    lit = [w for w in (reserved_word(s) for s in sides) if w is not None]
                     loc = [s for s in sides for p_ in walk(s) if p_["k"] == "Path" and p_.get("res") == "local"]
                     if lit and loc:
                         lids = {p_.get("lid") for s in loc for p_ in walk(s) if p_["k"] == "Path"}
                         for i, ps in enumerate(pl):
                             if lids & set(ps):
-                                keyed[g] = (i, lit[0].get("v"))
-    rep.floor(rid, "keyed wrappers of a set-once setter", len(keyed), 3)
+                                keyed[g] = (i, lit[0])
+                                hit = True
+            if not hit and any(x["k"] == "Path" and x.get("res") == "local" and any(x.get("lid") in ps for ps in pl) for x in walk(test)):
+                unread.append((g, n.get("line")))
+    # (by role, not by today's count: b93 leaves ONE level-1 wrapper `insert(table, name, export)`; the three per-table
+    # functions delegate to it with their own key parameter and are found by the helper-wrapper discovery below.  What
+    # keeps the rule from passing vacuously is that no setter call may sit under a parameter test of another shape.)
+    rep.floor(rid, "keyed wrappers of a set-once setter", len(keyed), 1)
+    for g, line in unread:
+        rep.ob(rid, "%s/keyed-form" % g.rsplit("::", 1)[-1], False,
+               "%s reaches the set-once setter under a test of one of its parameters that is not the recognised `<param> == <reserved word>`: the rule cannot tell for which keys the setter is reached" % g,
+               "%s:%s" % (F.fns[g].file, line), sample={"fn": g})
 
     # ---- taint: values that may spell the reserved word
     SPEC = "ModuleExportName"
@@ -1362,12 +1531,25 @@ def set_once_rule(cx, rep, rid):
                     for y in closure_paths(D, e, depth + 1, seen):
                         yield y
     tainted_fields = set()
+    # bindings taken out of a record by destructuring (`for UnresolvedExport { name, renamed, .. } in ..`, benign b93)
+    # carry the field they are bound from, like a field read `u.renamed` does
+    pat_fields = {}
+    for g, t in trees.items():
+        m = pat_fields[g] = {}
+        for n in walk(t["body"]):
+            if n["k"] == "P.Struct":
+                for fl in n.get("fields") or []:
+                    for b_ in walk(fl["pat"]):
+                        if b_["k"] == "P.Binding":
+                            m.setdefault(b_.get("lid"), set()).add((n.get("def"), fl["name"]))
 
     def tainted(g, expr):
         for x in closure_paths(derivs[g], expr):
             if x["k"] == "Path" and SPEC in (x.get("ty") or ""):
                 return True
             if x["k"] == "Field" and (x.get("adt"), x["name"]) in tainted_fields:
+                return True
+            if x["k"] == "Path" and x.get("res") == "local" and pat_fields[g].get(x.get("lid"), set()) & tainted_fields:
                 return True
         return False
     for _ in range(3):
